@@ -110,18 +110,29 @@ def one_program(run, prog, ns, stats, want_cls=None):
     try:
         an = analyse(prog.source, prog.arg_types, ns)
     except R.AnalysisTimeout:
-        stats['timeout'] = stats.get('timeout', 0) + 1
-        run.fail('the real analysis did not reach a fixed point within 20 s',
-                 {'program': prog.source, 'inputs': [list(i) for i in prog.inputs], 'key': prog.key,
-                  'arg_types': {k[1]: sorted(v) for k, v in prog.arg_types.items()}}, None)
-        if stats['timeout'] >= 3:
-            raise TooManyTimeouts()
+        run.fail('the real analysis ran into the wall-clock backstop', {'program': prog.source, 'key': prog.key}, None)
         return None
     except R.Unsupported as e:
         stats['unsupported'] = stats.get('unsupported', 0) + 1
         run.fail('the real analysis raised on a generated program: %s' % e,
                  {'program': prog.source, 'key': prog.key}, None)
         return None
+    if an.diverged is not None:
+        # class: the run exhibited the one non-monotone transition of the pinned transfer function (an assignment target
+        # kept stale while its value was unknown, strongly updated once it became known) before it failed to converge
+        a = an.diverged
+        cls = R.DIVERGENCE_CLASS if a._nonmono else None
+        key = 'diverged_known' if cls else 'diverged_unexplained'
+        stats[key] = stats.get(key, 0) + 1
+        run.fail('the real analysis did not reach a fixed point within %d node visits (cap 3000 + 300 per CFG node; '
+                 'successors visited in ascending node order)' % a._visits,
+                 {'program': prog.source, 'inputs': [list(i) for i in prog.inputs], 'key': prog.key,
+                  'function': str(a.scope.function_name), 'non_monotone_targets': sorted(a._nonmono),
+                  'arg_types': {k[1]: sorted(v) for k, v in prog.arg_types.items()}}, cls)
+        run.case(('prog', prog.key), True)
+        if stats.get('diverged_unexplained', 0) >= 3:
+            raise TooManyTimeouts()
+        return an, {}, {}, {'checked': 0, 'checked_untainted': 0}
     taint, wsets = R.compute_taint(an)
     tlog, clog, outcomes = R.instrument_and_run(an, prog.inputs, ns)
     st = oracle(run, prog, an, tlog, clog, taint)
@@ -140,7 +151,7 @@ def one_program(run, prog, ns, stats, want_cls=None):
 # Lean side: correspondence of the model's analysis and verified checkers on the real solution
 # ---------------------------------------------------------------------------------------------------------------
 def _fuel(fi):
-    return 400 + 60 * len(fi.nodes)
+    return R.visit_cap(len(fi.nodes))
 
 
 def lean_jobs(items):
@@ -214,7 +225,14 @@ def correspondence(run, jobs, stats):
         if res['supported'][0] != 'True':
             stats['model_unsupported'] = stats.get('model_unsupported', 0) + 1
             continue
+        if an.nonmono:
+            stats['model_compared_nonmonotone'] = stats.get('model_compared_nonmonotone', 0) + 1
         n += 1
+        if fi.diverged:
+            stats['model_diverged_too'] = stats.get('model_diverged_too', 0) + (res['finished'][0] != 'True')
+            if res['finished'][0] == 'True':
+                dis['finished'].append(dict(where, note='real analysis hit the visit cap, the model finished'))
+            continue
         if res['finished'][0] != 'True':
             dis['finished'].append(where)
             continue
@@ -236,7 +254,7 @@ def correspondence(run, jobs, stats):
         by_an.setdefault(id(an), (an, {}, where, {}))[1].update({int(i): T.set_of_sexp(t) for i, t in res['annos'][0]})
         stats['model_nodes'] = stats.get('model_nodes', 0) + len(real_in)
     for an, annos, where, tot in by_an.values():
-        if all(j.get('res') and j['res']['supported'][0] == 'True' and j['res']['finished'][0] == 'True' for j in jobs if j['an'] is an):
+        if an.diverged is None and all(j.get('res') and j['res']['supported'][0] == 'True' and j['res']['finished'][0] == 'True' for j in jobs if j['an'] is an):
             if annos != an.types_anno:
                 bad = sorted(i for i in set(annos) | set(an.types_anno) if annos.get(i) != an.types_anno.get(i))
                 dis['annos'].append(dict(where, function='*', nodes=bad[:5],
@@ -258,6 +276,8 @@ def checkers(run, jobs, stats):
     for j in jobs:
         res = j.get('chk')
         fi = j['fi']
+        if j['an'].diverged is not None:
+            continue
         where = {'program': j['prog'].source, 'function': fi.fdef.name, 'key': j['prog'].key, 'S': j['S'], 'W': j['W']}
         if res is None:
             bad['fix'].append(dict(where, answer=j.get('chk_raw')))
